@@ -363,12 +363,19 @@ func childMain(mode string) {
 }
 
 func childTrial(mode string, k, delayUs, warmMs, idx int) {
+	label := mode
 	dir := os.Getenv("VERIF_BUILD")
 	if dir == "" {
 		dir = os.TempDir()
 	}
-	out := fmt.Sprintf("%s/c20child-%s-%d.log", dir, mode, idx)
+	out := fmt.Sprintf("%s/c20child-%s-%d.log", dir, strings.ReplaceAll(mode, "+", "_"), idx)
 	cmd := exec.Command(os.Args[0])
+	if strings.HasSuffix(mode, "+nodump") {
+		// argv[0] in a directory where no file can be created (even by root): the stack dump that
+		// CheckPanic writes next to the executable fails; the log must still be flushed
+		cmd.Args = []string{"/proc/verif-c20-child"}
+		mode = strings.TrimSuffix(mode, "+nodump")
+	}
 	cmd.Env = append(os.Environ(), "C20_CHILD="+mode, "C20_CHILD_OUT="+out, "C20_CHILD_K="+strconv.Itoa(k),
 		"C20_CHILD_DELAY_US="+strconv.Itoa(delayUs), "C20_CHILD_WARM_MS="+strconv.Itoa(warmMs), "C20_CHILD_DIR="+dir)
 	var stderr bytes.Buffer
@@ -376,7 +383,7 @@ func childTrial(mode string, k, delayUs, warmMs, idx int) {
 	t0 := time.Now()
 	err := cmd.Run()
 	el := time.Since(t0)
-	spec := map[string]interface{}{"scenario": "child:" + mode, "entries": k, "writer_delay_us": delayUs, "process_age_ms_before_logging": warmMs, "index": idx}
+	spec := map[string]interface{}{"scenario": "child:" + label, "entries": k, "writer_delay_us": delayUs, "process_age_ms_before_logging": warmMs, "index": idx}
 	run.Eval(1)
 	b, rerr := os.ReadFile(out)
 	os.Remove(out)
@@ -398,16 +405,16 @@ func childTrial(mode string, k, delayUs, warmMs, idx int) {
 			last = clip(string(b[i:]))
 		}
 		spec["last_entry_in_file"] = last
-		run.Violation("entry-lost", "child:"+mode, fmt.Sprintf("%d of %d entries logged before the %s reached the writer", got, k, map[bool]string{true: "flush", false: "panic-triggered exit"}[mode == "flush"]), spec)
+		run.Violation("entry-lost", "child:"+label, fmt.Sprintf("%d of %d entries logged before the %s reached the writer", got, k, map[bool]string{true: "flush", false: "panic-triggered exit"}[mode == "flush"]), spec)
 		return
 	}
 	for i := 0; i < k; i++ {
 		if !strings.Contains(string(b), fmt.Sprintf("<T0-g0-%d>\n", i)) {
-			run.Violation("entry-lost", "child:"+mode, fmt.Sprintf("entry %d missing", i), spec)
+			run.Violation("entry-lost", "child:"+label, fmt.Sprintf("entry %d missing", i), spec)
 			return
 		}
 	}
-	run.Distinct(fmt.Sprintf("child|%s|%d|%d|%d", mode, k, delayUs, warmMs))
+	run.Distinct(fmt.Sprintf("child|%s|%d|%d|%d", label, k, delayUs, warmMs))
 }
 
 func main() {
@@ -416,7 +423,7 @@ func main() {
 		return
 	}
 	run = vlib.Start("C20")
-	run.SetRule("in-process trials (flush re-armed by hook): natural (G in {1,4,32} goroutines x per-goroutine entries x raw/formatted x swept pause), forced (flusher held between its two selects while the last entry and the flush request arrive), occupancy (0,1,100,9999 entries queued at the flush request), overflow (more entries than the queue holds, gated writer); child processes: flush after >1 s process age with a slow writer, panic exit through CheckPanic with string/error/struct/runtime-error values. A case is a trial; distinct = distinct (kind, parameters, recorded write count) keys.")
+	run.SetRule("in-process trials (flush re-armed by hook): natural (G in {1,4,32} goroutines x per-goroutine entries x raw/formatted x swept pause), forced (flusher held between its two selects while the last entry and the flush request arrive), occupancy (0,1,100,9999 entries queued at the flush request), overflow (more entries than the queue holds, gated writer); child processes: flush after >1 s process age with a slow writer, panic exit through CheckPanic with string/error/struct/runtime-error values, and with the stack dump file uncreatable (argv[0] under /proc). A case is a trial; distinct = distinct (kind, parameters, recorded write count) keys.")
 	run.Assume("an entry counts as 'logged before the flush' when its logging call returned before FlushLogger was called (barrier in the harness)")
 	run.Assume("a flush that takes >= the flush timeout (1 s) is not judged (inconclusive)")
 	rogger.SetLevel(rogger.DEBUG)
@@ -471,7 +478,7 @@ func main() {
 	// child processes
 	idx := 0
 	for rep := 0; rep < run.Pick(2, 12); rep++ {
-		for _, mode := range []string{"flush", "panic-string", "panic-error", "panic-struct", "panic-runtime"} {
+		for _, mode := range []string{"flush", "panic-string", "panic-error", "panic-struct", "panic-runtime", "panic-string+nodump"} {
 			idx++
 			warm := 0
 			if mode == "flush" || rep%2 == 1 {
